@@ -223,6 +223,14 @@ func applyIfExistsConfig(t rel.Tuple, dir string, fs afero.Fs, dryRun bool) (err
 		return errInvalidConfig
 	}
 
+	if conf.String() == ifExistsRemove {
+		if err := checkNotDirAndNotFileField(t); err != nil {
+			return err
+		}
+	} else if err := checkDirXorFileField(t); err != nil {
+		return err
+	}
+
 	if _, err := fs.Stat(dir); os.IsNotExist(err) {
 		if conf.String() != ifExistsRemove {
 			return applyFilesFields(t, dir, fs, dryRun)
@@ -287,6 +295,9 @@ func checkDirXorFileField(t rel.Tuple) error {
 }
 
 func applyFilesFields(t rel.Tuple, path string, fs afero.Fs, dryRun bool) error {
+	if err := checkDirXorFileField(t); err != nil {
+		return err
+	}
 	if dir, has := t.Get(dirField); has {
 		d, err := getDirField(dir)
 		if err != nil {
